@@ -354,6 +354,12 @@ func Send(method, rawurl string, options ...SendOption) (*http.Response, error) 
 			if d == backoff.Stop {
 				break // Backoff timed out.
 			}
+			// The previous attempt consumed (and closed) the request body. Every
+			// attempt must carry the complete original body, so rewind it, and
+			// give up retrying if the body cannot be replayed.
+			if !rewindBody(req) {
+				break
+			}
 			time.Sleep(d)
 			continue
 		}
@@ -471,7 +477,37 @@ func newRequest(method string, opts *sendOptions) (*http.Request, error) {
 	for key, val := range opts.headers {
 		req.Header.Set(key, val)
 	}
+	if rs, ok := opts.body.(io.ReadSeeker); ok && req.GetBody == nil {
+		// Seekable bodies (e.g. *os.File) can be replayed on retries. Hide Close
+		// from the transport, which otherwise closes the body after one attempt.
+		if start, err := rs.Seek(0, io.SeekCurrent); err == nil {
+			req.Body = io.NopCloser(rs)
+			req.GetBody = func() (io.ReadCloser, error) {
+				if _, err := rs.Seek(start, io.SeekStart); err != nil {
+					return nil, err
+				}
+				return io.NopCloser(rs), nil
+			}
+		}
+	}
 	return req, nil
+}
+
+// rewindBody resets req.Body to the beginning of the original request body so
+// that req can be sent again. It returns false if the body cannot be replayed.
+func rewindBody(req *http.Request) bool {
+	if req.Body == nil || req.Body == http.NoBody {
+		return true
+	}
+	if req.GetBody == nil {
+		return false
+	}
+	body, err := req.GetBody()
+	if err != nil {
+		return false
+	}
+	req.Body = body
+	return true
 }
 
 func fallbackToHTTP(
